@@ -742,7 +742,7 @@ func ioOutput(L *LState) int {
 	}
 	switch lv := L.Get(1).(type) {
 	case LString:
-		file, err := newFile(L, nil, string(lv), os.O_WRONLY|os.O_CREATE, 0600, true, false)
+		file, err := newFile(L, nil, string(lv), os.O_WRONLY|os.O_TRUNC|os.O_CREATE, 0600, true, false)
 		if err != nil {
 			L.RaiseError(err.Error())
 		}
